@@ -84,6 +84,14 @@ CLAIMED = {
             "magnitudes of cancelling sums are measured by their terms; three open known findings (removable "
             "singularities of the two-loop THDM formulas)",
             "4/C11"),
+    "C17": ("property-based testing (Hypothesis): model-based generation of C-API call histories as data, executed in "
+            "lock-step against a C++ mirror object inside the sanitizer executor",
+            "Generated histories of up to 40 calls (setters with finite/non-finite values, conversions, getters, all a_mu / "
+            "uncertainty functions, string getters with guard-byted buffers of length 0..64, THDM construction with null "
+            "pointers and out-of-range enums, calls before initialisation, free(NULL)); setter/getter identity, bit-identical "
+            "results, error-code mapping, no escaping exception, no overrun, no sanitizer report.",
+            "one history = one executor command, so a crash is attributed to exactly one generated case",
+            "4/C17"),
     "C19": ("property-based testing (Hypothesis): stateful call-order generation with complete before/after state dumps "
             "(sequential purity), order permutations of batches, and generated thread plans executed under ThreadSanitizer",
             "Generated models, function subsets/orders, interleaved foreign models and batches are checked for argument "
